@@ -49,3 +49,18 @@ Proof.
   unfold sub. rewrite <- Hv. unfold len. rewrite N.sub_0_r, Nat2N.id. cbn [N.to_nat skipn]. now rewrite firstn_all.
 Qed.
 Print Assumptions explicit_clone_is_share_or_copy.
+
+(** [try_into_vec]: the buffer is handed over only to the SOLE owner whose view starts at offset 0, truncated to the view's length
+    (this is the machine's [can_unwrap]); every other handle gets itself back unchanged *)
+Theorem try_into_vec_gen_spec : forall dbg unique off n vlen, n <= vlen ->
+  try_into_vec_gen dbg unique off n vlen = Val (if (off =? 0) && unique then TIVOk n else TIVErr).
+Proof.
+  intros dbg unique off n vlen H. unfold try_into_vec_gen, OWNER_PTR.
+  destruct (off =? 0), unique; cbn [negb andb]; destruct dbg; cbn [andb negb]; try reflexivity;
+    rewrite N.min_r by exact H; reflexivity.
+Qed.
+
+Theorem can_unwrap_is_try_into_vec : forall dbg bk st b blk off n, get_b st b = Some blk -> n <= len (vdata blk) ->
+  try_into_vec_gen dbg (is_unique_c bk (cnt blk)) off n (len (vdata blk)) = Val (if can_unwrap bk st (RAlloc b off n) then TIVOk n else TIVErr).
+Proof. intros dbg bk st b blk off n G H. rewrite try_into_vec_gen_spec by exact H. unfold can_unwrap. rewrite G. reflexivity. Qed.
+Print Assumptions can_unwrap_is_try_into_vec.
